@@ -114,6 +114,9 @@ def run(ctx):
                        "promoted through an embedded struct or *struct; interfaces with an unexported method (satisfied only by a mixin type of the interface's package embedded by value or pointer - value or pointer receiver - never by a method of the same name declared in the annotated type's package; both at once); a same-package interface over a defined type of a package that also has an in-package _test.go file (analysed twice by the stand-alone driver); contracts with and without &; qualifiers bound, unbound, the package's own name, the directory name of a differently named "
                        "package; targets that are interfaces, the empty interface, a struct, a function, absent. evaluations = annotations judged by Go; non-trivial = annotations with a decidable "
                        "verdict other than the trivially satisfied empty interface. Compared: binary vs Go's verdict incl. missing-method names; binary vs model incl. column and message" % n)
+    rep.cov["packages_serialised"] = m.get("packages")
+    rep.cov["packages_meeting_the_input_conditions_of_the_theorems"] = {"x_impl_inputs_ok (method identities unique, import names known)": m.get("packages_impl_inputs_ok"),
+                                                                        "x_lines_ok && x_pos_ok && x_ranges_ok": m.get("packages_lines_ok")}
     rep.cov["go_verdicts"] = dict(exp)
     rep.cov["oracle_skipped"] = skipped
     rep.cov["impl_diagnostics"] = nimpl
